@@ -51,7 +51,8 @@ def main():
         srows.append(f"| `{m['id']}` {m.get('title', '').split('—')[-1].strip()[:110]} | {m['breaks_property']} | {needs} | {suite[:70]} | {caught} |")
     metas = [json.load(open(mp)) for mp in sorted(glob.glob(os.path.join(ROOT, "seeded", "*", "meta.json")))]
     n = len(metas)
-    missed_first = sum(1 for m in metas if m.get("notes", "").startswith("missed") or "would have been filed" in m.get("notes", ""))
+    missed_first = sum(1 for m in metas if m.get("notes", "").startswith("missed") or "would have been filed" in m.get("notes", "")
+                       or "added because of this change" in m.get("notes", "") or "added for it" in m.get("notes", ""))
     pre = sum(1 for m in metas if "before the first run" in m.get("notes", ""))
     notc = [m["id"] for m in metas if not m.get("caught_by")]
     sampled = [m["id"] for m in metas if "only by the supplementary free-running" in m.get("notes", "")]
